@@ -86,17 +86,101 @@ fn c18_sx127x_get_rx_payload() {
     kani::cover!(res.is_ok(), "verif-reached: ok");
 }
 
-// packet status / RSSI conversions must be total for every register value
-// @verif props=C17,C18,C04 obligation=Sx127x::get_rx_packet_status+get_rssi.total label=proved-complete tier=quick
+// packet status / RSSI conversions: total for every register value, and equal to the datasheet conversion of what the chip
+// answered (read back from the SPI contract-stub's read log).  SX1276/77/78/79 datasheet 5.5.5, SX1272/73 datasheet 6.4 / 5.5.5:
+//   SNR[dB]   = PacketSnr (two's complement) / 4
+//   RSSI[dBm] = offset + PacketRssi                     (SNR >= 0; the SX1276 text scales the raw value by 16/15)
+//             = offset + PacketRssi + PacketSnr * 0.25  (SNR < 0)
+//   offset    = -157 (SX1276 HF port, bands above 779 MHz), -164 (SX1276 LF port, up to 525 MHz), -139 (SX1272)
+// Semtech's documents and reference drivers disagree on where the 16/15 slope applies, so BOTH readings of the raw RSSI term
+// (raw, or raw * 16/15) are accepted; the tolerance is 1 dB plus the rounding of the SNR term (each term is rounded once: < 1.5 dB).
+fn status_contract<C: Sx127xVariant>(mut r: Sx127x<MockSpi, MockIv, C>, sx1276: bool) {
+    let a = r.get_rx_packet_status();
+    let g = unsafe { &*(&raw const SPI) };
+    assert!(a.is_ok(), "total: every register value converts");
+    let st = a.unwrap();
+    // reads: RegPktSnrValue (0x19), RegPktRssiValue (0x1A), then (SX1276 only) RegFrfMsb/Mid/Lsb (0x06..0x08) for the port
+    assert!(g.n >= 2 && g.w[0][0] == 0x19 && g.w[1][0] == 0x1A, "packet SNR and packet RSSI registers are the ones read");
+    let (raw_snr, raw_rssi) = (g.rd[0] as i8 as i32, g.rd[1] as i32);
+    let (snr, rssi) = (st.snr as i32, st.rssi as i32);
+    assert!(st.snr >= -32 && st.snr <= 31, "C17 SNR = signed raw / 4");
+    assert!((4 * snr - raw_snr).abs() < 4, "C17 reported SNR agrees with the signed RegPktSnrValue / 4 to within rounding");
+    let frf = ((g.rd[2] as u64) << 16) | ((g.rd[3] as u64) << 8) | g.rd[4] as u64;
+    let f_hz = (frf * 32_000_000) >> 19;
+    let snr_term = if raw_snr < 0 { 15 * raw_snr } else { 0 };        // x60 scale: 60 * raw_snr / 4
+    let mut ok = false;
+    let offsets: [i32; 2] = if !sx1276 { [-139, -139] } else if f_hz >= 779_000_000 { [-157, -157] } else if f_hz <= 525_000_000 { [-164, -164] } else { [-157, -164] };
+    let mut k = 0;
+    while k < 2 {
+        let plain = 60 * offsets[k] + 60 * raw_rssi + snr_term;
+        let scaled = 60 * offsets[k] + 64 * raw_rssi + snr_term;
+        if (60 * rssi - plain).abs() < 90 || (60 * rssi - scaled).abs() < 90 { ok = true; }
+        k += 1;
+    }
+    assert!(ok, "C17 reported packet RSSI agrees with the datasheet conversion of RegPktRssiValue / RegPktSnrValue (port offset by programmed frequency) to within rounding");
+    kani::cover!(raw_snr < 0, "verif-reached: negative SNR");
+    kani::cover!(raw_snr >= 0 && raw_rssi > 100, "verif-reached: strong signal");
+}
+// @verif props=C17,C18,C04 obligation=Sx127x<Sx1276>::get_rx_packet_status.contract label=proved-complete tier=quick bound="all 2^40 register value combinations (SNR, RSSI, Frf)"
 #[kani::proof]
 #[kani::unwind(14)]
-fn c17_sx127x_packet_status_total() {
+fn c17_sx127x_packet_status_total() { tape::init(); status_contract(Sx127x::new(MockSpi, MockIv, Config { chip: Sx1276, tcxo_used: false, tx_boost: false, rx_boost: false }), true) }
+// @verif props=C17,C18,C04 obligation=Sx127x<Sx1272>::get_rx_packet_status.contract label=proved-complete tier=quick bound="all 2^16 register value combinations"
+#[kani::proof]
+#[kani::unwind(14)]
+fn c17_sx1272_packet_status() { tape::init(); status_contract(Sx127x::new(MockSpi, MockIv, Config { chip: Sx1272, tcxo_used: false, tx_boost: false, rx_boost: false }), false) }
+
+// instantaneous RSSI: RSSI[dBm] = offset + RegRssiValue (0x1B)
+fn rssi_contract<C: Sx127xVariant>(mut r: Sx127x<MockSpi, MockIv, C>, sx1276: bool) {
+    let b = r.get_rssi();
+    let g = unsafe { &*(&raw const SPI) };
+    assert!(b.is_ok() && g.n >= 1 && g.w[0][0] == 0x1B, "total; RegRssiValue is the register read");
+    let v = b.unwrap() as i32 - g.rd[0] as i32;
+    let frf = ((g.rd[1] as u64) << 16) | ((g.rd[2] as u64) << 8) | g.rd[3] as u64;
+    let f_hz = (frf * 32_000_000) >> 19;
+    if !sx1276 { assert!(v == -139, "C17 SX1272 RSSI = -139 + RegRssiValue"); }
+    else { assert!((v == -157 && f_hz > 525_000_000) || (v == -164 && f_hz < 779_000_000), "C17 SX1276 RSSI = -157 (HF port) / -164 (LF port) + RegRssiValue, port by the programmed frequency"); }
+    kani::cover!(true, "verif-reached: end");
+}
+// @verif props=C17 obligation=Sx127x<Sx1276>::get_rssi.contract label=proved-complete tier=quick bound="all register values"
+#[kani::proof]
+#[kani::unwind(14)]
+fn c17_sx1276_get_rssi() { tape::init(); rssi_contract(Sx127x::new(MockSpi, MockIv, Config { chip: Sx1276, tcxo_used: false, tx_boost: false, rx_boost: false }), true) }
+// @verif props=C17 obligation=Sx127x<Sx1272>::get_rssi.contract label=proved-complete tier=quick bound="all register values"
+#[kani::proof]
+#[kani::unwind(14)]
+fn c17_sx1272_get_rssi() { tape::init(); rssi_contract(Sx127x::new(MockSpi, MockIv, Config { chip: Sx1272, tcxo_used: false, tx_boost: false, rx_boost: false }), false) }
+
+// frequency: RegFrfMsb/Mid/Lsb (0x06..0x08) carry the 24-bit synthesiser word, MSB first; the word is freq_to_pll_step(f), whose
+// contract (0 <= f - word * 32e6 / 2^19 < 61.04 Hz) is the Verus unit `freq_to_pll_step` (group phyarith, unbounded)
+// The conversion is replaced by its contract-stub here (CBMC needs 339 s for the 64-bit division): called with the requested
+// frequency, and whatever word it returns must be what reaches the three registers.
+pub(crate) static mut CONV_CALLS: u32 = 0;
+pub(crate) static mut CONV_ARG: u32 = 0;
+pub(crate) static mut CONV_RET: u32 = 0;
+fn stub_freq_to_pll_step(freq_in_hz: u32) -> u32 { unsafe { CONV_CALLS += 1; CONV_ARG = freq_in_hz; CONV_RET = u32::from_le_bytes(tape::stub_arr::<4>()); CONV_RET } }
+// @verif props=C17 obligation=Sx127x::set_channel.wire label=proved-complete tier=quick bound="every u32 frequency; the PLL-step conversion is contract-stubbed (its contract: Verus unit freq_to_pll_step)"
+#[kani::proof]
+#[kani::unwind(26)]
+#[kani::stub(freq_to_pll_step, stub_freq_to_pll_step)]
+fn c17_sx127x_set_channel_wire() {
     tape::init();
     let mut r = Sx127x::new(MockSpi, MockIv, Config { chip: Sx1276, tcxo_used: false, tx_boost: false, rx_boost: false });
-    let a = r.get_rx_packet_status();
-    let b = r.get_rssi();
-    if let Ok(st) = a { assert!(st.snr >= -32 && st.snr <= 31, "C17 SNR = signed raw / 4"); }
-    kani::cover!(a.is_ok() && b.is_ok(), "verif-reached: end");
+    let f = tape::u32();
+    let res = r.set_channel(f);
+    let g = unsafe { &*(&raw const SPI) };
+    assert!(unsafe { CONV_CALLS == 1 && CONV_ARG == f }, "C17 the synthesiser word is computed from the requested frequency");
+    let word = unsafe { CONV_RET };
+    if res.is_ok() {
+        // the LAST value written to each of the three registers
+        let mut v: [Option<u8>; 3] = [None; 3];
+        let mut k = 0;
+        while k < LOG_LEN { if k < g.n && g.wl[k] == 2 { let a = g.w[k][0]; if a == 0x86 { v[0] = Some(g.w[k][1]); } if a == 0x87 { v[1] = Some(g.w[k][1]); } if a == 0x88 { v[2] = Some(g.w[k][1]); } } k += 1; }
+        assert!(v[0].is_some() && v[1].is_some() && v[2].is_some(), "RegFrfMsb, RegFrfMid and RegFrfLsb are all written");
+        let wire = ((v[0].unwrap() as u32) << 16) | ((v[1].unwrap() as u32) << 8) | v[2].unwrap() as u32;
+        assert!(wire == word & 0x00ff_ffff, "C17 the synthesiser word in RegFrf (MSB first) is the PLL-step conversion of the requested frequency");
+    }
+    kani::cover!(res.is_ok() && f > 868_000_000 && f < 870_000_000, "verif-reached: programmed");
 }
 
 // the LDRO bit that reaches the chip is the one decided by create_modulation_params, whatever the registers held before
